@@ -109,6 +109,25 @@ def install(w):
     for nm in ("_thread.get_ident", "threading.get_ident", "os.getpid", "threading.get_native_id", "_thread.get_native_id"):
         H[nm] = _some_int(nm.replace(".", "_"))
 
+    # logging: effect-free as far as any property is concerned (handlers that write somewhere are not modelled)
+    import logging
+
+    w.classes.add(logging.Logger)
+    w.schemas[logging.Logger] = ClassSchema(logging.Logger, fields={})
+
+    def _get_logger(ex, st, args, kw, node):
+        return ex.new_object(st, logging.Logger)
+
+    H["logging.getLogger"] = _get_logger
+
+    def _log_nothing(ex, st, args, kw, node):
+        ex.trusted_used.add("A-PY logging calls have no effect on program state")
+        return Val(NONE, NoneType)
+
+    for meth in ("debug", "info", "warning", "error", "exception", "critical", "log"):
+        H[f"logging.Logger.{meth}"] = _log_nothing
+        H[f"logging.{meth}"] = _log_nothing
+
     def match_getitem(ex, st, args, kw, node):
         m, idx = args
         oid = ex.as_ref(st, m, node)
